@@ -201,6 +201,7 @@ func (fr *Frame) step(in ssa.Instruction, cond T, st *State) T {
 		}
 		fr.defers = append(fr.defers, deferRec{armed: cond, call: &i.Call, args: args, fnVal: fv, site: i})
 	case *ssa.RunDefers:
+		fr.curBlock = i.Block()
 		return fr.runDefers(cond, st)
 	case *ssa.Go:
 		vc.assume(fmt.Sprintf("go statement at %s: goroutine body not verified in this context; assumed to touch only what it captures", fr.posOf(i)))
